@@ -33,17 +33,17 @@ def run(ctx, res):
         "the channel delivers committed bytes exactly once in order (C01/C02)",
         "acquire_map_read / acquire_unmap_read are paired by the client, not by the runtime (checked under C06)",
     ]
-    RR.rule_pairs(prog, res, ["video_sink_thread", "process_data", "acquire_stop"])
-    RR.rule_not_after_stop_signal(prog, res)
-    RR.rule_loop_until_empty(prog, res, "video_sink_thread", "last")
-    RR.rule_wiring(prog, res)
-    RR.rule_frame_counter(prog, res)
-    RR.rule_consume(prog, res, "video_sink_thread", "append")
-    RR.rule_consume(prog, res, "process_data", "iterate")
+    res.guard(RR.rule_pairs, prog, res, ["video_sink_thread", "process_data", "acquire_stop"])
+    res.guard(RR.rule_not_after_stop_signal, prog, res)
+    res.guard(RR.rule_loop_until_empty, prog, res, "video_sink_thread", "last")
+    res.guard(RR.rule_wiring, prog, res)
+    res.guard(RR.rule_frame_counter, prog, res)
+    res.guard(RR.rule_consume, prog, res, "video_sink_thread", "append")
+    res.guard(RR.rule_consume, prog, res, "process_data", "iterate")
     # the channel clauses every flush loop depends on (anchored in channel.c)
-    rule_empty_drained(prog, res)
-    rule_cursor_pair(prog, res, LockAnalysis(prog))
-    rule_cursor_copy(prog, res, LockAnalysis(prog))
+    res.guard(rule_empty_drained, prog, res)
+    res.guard(rule_cursor_pair, prog, res, LockAnalysis(prog))
+    res.guard(rule_cursor_copy, prog, res, LockAnalysis(prog))
     res.require_min("PAIR", 4)
     res.require_min("NOT-AFTER", 2)
     res.require_min("LOOP-UNTIL", 1)
